@@ -381,7 +381,16 @@ impl SortedUintVec {
         // Get delta within block
         let delta = self.get_block_delta(block_idx, offset_idx)?;
         
-        Ok(block_min + delta as u64)
+        Self::add_delta(block_min, delta)
+    }
+
+    /// `block_min + delta`: a loaded image is untrusted, and a 64-bit sample near `u64::MAX`
+    /// plus a delta does not fit - that is malformed data, not a reason to overflow
+    #[inline]
+    fn add_delta(block_min: u64, delta: u32) -> Result<u64> {
+        block_min
+            .checked_add(delta as u64)
+            .ok_or_else(|| ZiporaError::invalid_data("block sample plus delta overflows u64"))
     }
 
     /// Get block minimum value
@@ -596,6 +605,8 @@ impl SortedUintVec {
             for i in 0..8 {
                 if base_offset + i < actual_block_size {
                     deltas[i] = self.get_block_delta(block_idx, base_offset + i)?;
+                    // the vector addition below wraps: check the sum here
+                    Self::add_delta(block_min, deltas[i])?;
                 }
             }
             
@@ -632,7 +643,7 @@ impl SortedUintVec {
         let remaining_start = chunks * 8;
         for i in remaining_start..actual_block_size {
             let delta = self.get_block_delta(block_idx, i)?;
-            output[i] = block_min + delta as u64;
+            output[i] = Self::add_delta(block_min, delta)?;
         }
         
         // Fill remaining output with zeros if needed
@@ -672,7 +683,7 @@ impl SortedUintVec {
         // Load all deltas in the block (only up to actual number of values)
         for i in 0..actual_block_size {
             let delta = self.get_block_delta(block_idx, i)?;
-            output[i] = block_min + delta as u64;
+            output[i] = Self::add_delta(block_min, delta)?;
         }
         
         // Fill remaining output with zeros if needed
